@@ -893,3 +893,92 @@ def _distance(ex, args, n):
     if isinstance(a, PtrVal) and isinstance(b, PtrVal) and a.path is not None and a.path.same(b.path):
         return b.off - a.off
     raise Unsupported('std::distance over unrelated iterators')
+
+
+PERM = z3.Function('perm', z3.ArraySort(z3.IntSort(), z3.RealSort()), z3.ArraySort(z3.IntSort(), z3.RealSort()),
+                   z3.IntSort(), z3.BoolSort())
+
+
+@free('sort')
+def _sort(ex, args, n):
+    """std::sort(first, last) without comparator over reals: the range becomes a non-decreasing rearrangement
+    (PERM: uninterpreted 'same multiset' relation, trusted)"""
+    a, b = ex.ev(args[0]), ex.ev(args[1])
+    if not (isinstance(a, PtrVal) and isinstance(b, PtrVal) and a.path is not None and a.path.same(b.path)):
+        raise Unsupported('std::sort over non-contiguous range')
+    p, v = _vec_at(ex, a.path)
+    if len(args) > 2:
+        return _sort_cmp(ex, p, v, a, b, ex.ev(args[2]), n)
+    if v.el[0] != 'real':
+        raise Unsupported('std::sort element type')
+    ex.oblige('bounds', 'range', z3.And(a.off == 0, b.off == v.len), n)
+    nd = z3.Const(ex.fresh_name('sorted'), v.data.sort())
+    i, j = z3.Int(ex.fresh_name('i!so')), z3.Int(ex.fresh_name('j!so'))
+    ex.assume(z3.ForAll([i, j], z3.Implies(z3.And(0 <= i, i <= j, j < v.len), z3.Select(nd, i) <= z3.Select(nd, j))))
+    ex.assume(PERM(nd, v.data, v.len))
+    k = z3.Int(ex.fresh_name('k!so'))
+    # every element of the result occurs in the input and vice versa (consequences of PERM used by the contracts)
+    w = z3.Int(ex.fresh_name('w!so'))
+    ex.assume(z3.ForAll([k], z3.Implies(z3.And(0 <= k, k < v.len),
+                                        z3.Exists([w], z3.And(0 <= w, w < v.len, z3.Select(nd, k) == z3.Select(v.data, w))))))
+    ex.write(p, VecVal(v.len, nd, v.el))
+    ex.assumed.add('std::sort: result is a non-decreasing rearrangement of the range (PERM uninterpreted)')
+    return None
+
+
+def _sort_cmp(ex, p, v, a, b, lam, n):
+    """std::sort(first, last, comp) over an int array: the result is a rearrangement without inversions w.r.t. comp
+    (trusted: comp is a strict weak order); rearrangements keep elements, injectivity and ranges"""
+    from .values import LambdaVal
+    if not isinstance(lam, LambdaVal) or v.el[0] != 'int':
+        raise Unsupported('std::sort with this comparator / element type')
+    ex.oblige('bounds', 'range', z3.And(a.off == 0, b.off == v.len), n)
+    nd = z3.Const(ex.fresh_name('sortedidx'), v.data.sort())
+    i, j, w = z3.Int(ex.fresh_name('i!sc')), z3.Int(ex.fresh_name('j!sc')), z3.Int(ex.fresh_name('w!sc'))
+    inv = ex.apply_lambda(lam, [z3.Select(nd, j), z3.Select(nd, i)])
+    ex.assume(z3.ForAll([i, j], z3.Implies(z3.And(0 <= i, i < j, j < v.len), z3.Not(inv))))
+    # rearrangement facts in quantifier-alternation-free form: an index vector stays an index vector
+    old_rng = z3.ForAll([i], z3.Implies(z3.And(0 <= i, i < v.len), z3.And(0 <= z3.Select(v.data, i), z3.Select(v.data, i) < v.len)))
+    new_rng = z3.ForAll([i], z3.Implies(z3.And(0 <= i, i < v.len), z3.And(0 <= z3.Select(nd, i), z3.Select(nd, i) < v.len)))
+    ex.assume(z3.Implies(old_rng, new_rng))
+    old_inj = z3.ForAll([i, j], z3.Implies(z3.And(0 <= i, i < j, j < v.len), z3.Select(v.data, i) != z3.Select(v.data, j)))
+    new_inj = z3.ForAll([i, j], z3.Implies(z3.And(0 <= i, i < j, j < v.len), z3.Select(nd, i) != z3.Select(nd, j)))
+    ex.assume(z3.Implies(old_inj, new_inj))
+    ex.write(p, VecVal(v.len, nd, v.el))
+    ex.assumed.add('std::sort(first,last,comp): result has no inversion w.r.t. comp and is a rearrangement '
+                   '(elements kept, injectivity kept); comp assumed a strict weak order')
+    return None
+
+
+@free('is_sorted')
+def _is_sorted(ex, args, n):
+    a, b = ex.ev(args[0]), ex.ev(args[1])
+    if not (isinstance(a, PtrVal) and isinstance(b, PtrVal) and a.path is not None and a.path.same(b.path)):
+        raise Unsupported('std::is_sorted over non-contiguous range')
+    p, v = _vec_at(ex, a.path)
+    ex.oblige('bounds', 'range', z3.And(a.off >= 0, a.off <= b.off, b.off <= v.len), n)
+    k = z3.Int(ex.fresh_name('k!is'))
+    x0, x1 = select(v.data, k), select(v.data, k + 1)
+    if len(args) > 2:
+        lam = ex.ev(args[2])
+        from .values import LambdaVal
+        if not isinstance(lam, LambdaVal):
+            raise Unsupported('is_sorted comparator')
+        bad = ex.apply_lambda(lam, [x1, x0])
+    else:
+        bad = x1 < x0
+    return z3.ForAll([k], z3.Implies(z3.And(a.off <= k, k + 1 < b.off), z3.Not(bad)))
+
+
+@free('iota')
+def _iota(ex, args, n):
+    a, b = ex.ev(args[0]), ex.ev(args[1])
+    val = ex.ev(args[2])
+    if not (isinstance(a, PtrVal) and isinstance(b, PtrVal) and a.path is not None and a.path.same(b.path)):
+        raise Unsupported('std::iota over non-contiguous range')
+    p, v = _vec_at(ex, a.path)
+    ex.oblige('bounds', 'range', z3.And(a.off >= 0, a.off <= b.off, b.off <= v.len), n)
+    j = z3.Int('j!io')
+    nd = z3.Lambda([j], z3.If(z3.And(j >= a.off, j < b.off), val + (j - a.off), z3.Select(v.data, j)))
+    ex.write(p, VecVal(v.len, nd, v.el))
+    return None
